@@ -11,6 +11,8 @@ broadcast use vstd::std_specs::hash::group_hash_axioms;
 //@include prelude/time.rs
 //@include prelude/agent.rs
 //@include inc/timers_decl.rs
+// every primitive / Duration constant of client.rs (new ones follow automatically)
+//@consts stun_agent :: mod client
 
 
 // ---- HashMap<TransactionId, StunTransaction>: vstd's model needs the key type to hash/compare structurally
@@ -699,6 +701,7 @@ impl StunClient {
 //@end
     // what StunMessageTimeout::check(now) popped, read against the client's invariant: the popped entries are the
     // (unique) timers of distinct outstanding requests, all due; what is left belongs to other requests
+    #[verifier::spinoff_prover]
     pub proof fn lemma_after_check(&self, ms1: Multiset<TimeoutItem>, removed: Seq<TimeoutItem>, ids: Seq<TransactionId>, now: int)
         requires self.wf(), check_post(self.timeouts.ms(), ms1, removed, ids, now),
         ensures
@@ -735,6 +738,13 @@ impl StunClient {
                 if x.transaction_id == removed[k].transaction_id { assert(x == removed[k]); }
             }
         }
+        // the four conjuncts of popped_facts, stated once more so that the opaque predicate is established from facts already proved
+        assert(ids.len() == removed.len());
+        assert(forall|k: int| 0 <= k < removed.len() ==> ids[k] == #[trigger] removed[k].transaction_id && removed[k].expiry() <= now);
+        assert(forall|k: int| 0 <= k < removed.len() ==> self.transactions@.contains_key(#[trigger] removed[k].transaction_id)
+            && removed[k] == self.entry(removed[k].transaction_id));
+        assert(forall|a: int, b: int| 0 <= a < b < removed.len() ==> removed[a].transaction_id != removed[b].transaction_id);
+        assert(popped_facts(*self, removed, ids, now));
     }
     pub proof fn lemma_empty_iff(&self)
         requires self.wf(),
